@@ -510,6 +510,16 @@ theorem childEval_wake (ch : Child σ) (now : Nat) (ports : List Port) (h : ∀ 
       intro e; apply hd; simp [Child.due, e]
     exact hne (by simpa using this)
 
+theorem activeAny_false (passive : List Nat) (f : Port → Bool) : ∀ (l : List Port) (i : Nat),
+    (∀ p ∈ l, f p = false) → activeAny passive f i l = false := by
+  intro l
+  induction l with
+  | nil => intro i _; rfl
+  | cons p r ih =>
+    intro i h
+    simp only [activeAny, h p (by simp), Bool.and_false, Bool.false_or]
+    exact ih (i + 1) (fun q hq => h q (by simp [hq]))
+
 /-- Nothing ticks, the boundary is not being sampled and no timer is due: the child is not touched. -/
 theorem childEval_idle (ch : Child σ) (now : Time) (ports : List Port)
     (hp : ∀ p ∈ ports, p.ticked = false) (hs : ch.sampledAt ≠ some now) (hw : ch.wake ≠ some now) :
@@ -524,10 +534,9 @@ theorem childEval_idle (ch : Child σ) (now : Time) (ports : List Port)
     | some q => exact hp q (List.mem_of_getElem? hg)
   have hs' : (ch.sampledAt == some now) = false := by simpa using hs
   have hw' : (ch.wake == some now) = false := by simpa using hw
-  have hany : (ch.br.view ports).any (fun p => p.ticked) = false := by
-    rw [List.any_eq_false]; intro p hp'; simp [hv p hp']
+  have hn : ch.br.notified ports = false := activeAny_false _ _ _ 0 hv
   have hd : ch.due now ports = false := by
-    simp [Child.due, Child.seen, hs', hw', hany]
+    simp [Child.due, hs', hw', hn]
   unfold childEval
   rw [hd]; rfl
 
